@@ -18,7 +18,7 @@ JOBS = {'quick': 4, 'thorough': 16}
 REQUIRED_MONITORS = ('equivariance_generic', 'invariants_axis_free', 'invariants_two_atom', 'distance_one_atom')
 REQUIRED_CLASSES = ('ref:1-atom', 'ref:2-atoms', 'ref:general', 'geometry:linear-z', 'geometry:partial-collinear',
                     'geometry:linear-moved', 'motion:generic', 'motion:translation', 'motion:rotation', 'motion:tiny',
-                    'motion:nearpi', 'motion:large-translation', 'motion:half-turn-axis', 'motion:bond-flip', 'motion:near-previous', 'anchor:near-collinear-judged', 'ref:2-atoms-not-bonded', 'reference:through-the-parsers')
+                    'motion:nearpi', 'motion:large-translation', 'motion:half-turn-axis', 'motion:bond-flip', 'motion:near-previous', 'anchor:near-collinear-judged', 'ref:2-atoms-not-bonded', 'reference:through-the-parsers', 'caller-edits-the-equivalences-it-was-handed')
 RULE = ('(reference, target, s) as in C01 plus references of 1 and 2 atoms; each mapped on M rigidly moved copies (M = 8 '
         'quick, 64 thorough; rotation classes generic/tiny/near-pi/identity x translations up to +-100 nm). Non-trivial: '
         'the motion is not the identity. distinct = distinct (reference class, geometry, motion class, s class, size bucket)')
@@ -182,6 +182,20 @@ def run_case(ctx, case):
             ctx.violation(f'map-raises:{type(exc).__name__}:{rcls}', str(exc)[:200], witness=w)
             continue
         model = emap.__dict__['_gmv_model']
+        if it % 4 == 1:
+            # the caller reads the map's table of equivalences and prunes the lists it was handed (keeps the heavy atoms,
+            # say): that is the caller's copy, the map must go on restoring every atom
+            try:
+                eq = emap.equivalences
+                for key in list(eq):
+                    v = eq[key]
+                    if isinstance(v, list) and v:
+                        del v[len(v) // 2:]
+                if isinstance(eq, dict) and len(eq) > 1:
+                    eq.pop(next(iter(eq)))
+                ctx.hit('caller-edits-the-equivalences-it-was-handed')
+            except Exception:  # noqa
+                ctx.count('equivalences_not_editable')
         persistent = refm.copy()
         ctx.hit('ref:' + rcls)
         ctx.hit('geometry:' + info['geometry'])
